@@ -518,6 +518,7 @@ fn run_job_inner(args: &Args, job: &Value, seq: usize) -> Value {
             op["threads"].as_u64().unwrap_or(4) as usize,
             op["per_thread"].as_u64().unwrap_or(50) as usize,
             op["seed"].as_u64().unwrap_or(1),
+            op["flood"].as_u64().unwrap_or(0) as usize,
         );
         drop(root);
         let _ = std::fs::remove_dir_all(&sb);
